@@ -12,6 +12,18 @@ def first_sentence(s, n=230):
     return s if len(s) <= n else s[:n].rsplit(" ", 1)[0] + " ..."
 
 
+def change_summary(notes, n=210):
+    """The author's own description, from 'Change:' / 'What:' on, without the seed heading."""
+    s = " ".join(notes.split())
+    for key in ("Change:", "What:", "Where:"):
+        i = s.find(key)
+        if 0 <= i < 400:
+            s = s[i + len(key):].strip()
+            break
+    s = s.replace("|", "/")
+    return s if len(s) <= n else s[:n].rsplit(" ", 1)[0] + " ..."
+
+
 def main():
     rows = []
     for sid in sorted(os.listdir(os.path.join(VERIF, "seeded"))):
@@ -24,13 +36,15 @@ def main():
         caught = ", ".join(m.get("caught_by") or []) or "**missed**"
         first = m.get("first_run_caught")
         note = "" if first is None or first else " (after strengthening)"
+        if not m.get("caught_by") and m.get("why_not_caught"):
+            caught = "not caught: " + m["why_not_caught"]
         viol = ""
         for c in m.get("caught_by") or []:
             v = [x for x in m["checks"][c]["violations"] if x.startswith("  ->")]
             if v:
                 viol = first_sentence(v[0][5:], 150)
                 break
-        rows.append("| %s | %s | %s | %s%s | %s |" % (sid, ", ".join(files), first_sentence(m.get("summary") or m["needs_to_manifest"]), caught, note, viol))
+        rows.append("| %s | %s | %s | %s%s | %s |" % (sid, ", ".join(files), (m.get("summary") or change_summary(m["needs_to_manifest"])), caught, note, viol))
     print("| seed | file | change / what it needs | caught by | reported as |")
     print("|---|---|---|---|---|")
     print("\n".join(rows))
